@@ -394,6 +394,8 @@ def evaluate(ck, cases, hout, crashes, mout, harness=None):
         ck.count()
         hist[c["mode"]] = hist.get(c["mode"], 0) + 1
         ho, mo = hout[k], mout[k]
+        if ho == "SKIPPED":
+            continue
         got = cc.parse_out(ho)
         t = c.get("table")
         if k < 2 or k % (len(cases) // 4 + 1) == 0:
@@ -455,7 +457,7 @@ def run(ck):
     else:
         cases = gen_cases(ck)
     hl = [c["line"] for c in cases]
-    hout, crashes = cc.pc.run_harness_resilient(harness, hl)
+    hout, crashes = cc.run_resilient(harness, hl)
     ml = list(hl)
     xi = [i for i, c in enumerate(cases) if c["mode"] == "xrff"]
     xm = cc.xrff_model_lines([hl[i] for i in xi], [hout[i] for i in xi])
